@@ -1,22 +1,17 @@
 /-
-  C14 — closedness of `extend_schema`'s result.
+  C14 — `extend_closed` (FULL): closedness of `extend_schema`'s result.
 
-  FULL statement (`ExtendClosed`): the result of extending a closed well-formed schema by a document whose names are all defined
-  (`ExtOK`) is closed. It is NOT proved in general. What is proved, for all heaps / closed well-formed sources / extension
-  documents (`extend_closed_kept_partial`): everything the result takes over FROM THE SOURCE is closed —
-  for every non-protected type name of the source the result registers a rebuilt object carrying that name whose
-  * interfaces are all THE objects registered under their names in the result,
-  * union members taken over from the source likewise,
-  * rebuilt fields (all the source's, in order) have a type reference and argument type references that are the registered
-    objects, and rebuilt input fields likewise;
-  and every specified scalar is the same closed leaf (`untouched_preserved_extend_protected`).
-  MISSING for the full statement — exactly the members, union members, types and directives the extension document ADDS
-  (`buildFields` / `buildArgs` / `buildNewTypes` / `buildNewDirs`: they resolve names through the same registry, so they are
-  closed iff the document only uses defined names — `ExtOK`). The rebuilt directives of the source and the root operation references
-  are covered by `extend_closed_source_directives` and `extend_closed_roots`. Tied meanwhile by the correspondence (`closedB` of the
-  model after every extension step = the identity check on the live objects) and by `extend_preserves_witness_fixed`.
+  `extend_closed`: for every heap, every closed well-formed source and every extension document that only uses defined names and
+  defines new, distinct type names (`ExtOK`), the result of `extend_schema` is CLOSED: every type the result registers — the
+  specified scalars, the rebuilt object of every source type WITH the fields / input fields / union members the document adds, the
+  object types the document defines — and every directive — rebuilt or defined by the document — only holds references that are
+  THE objects registered under their names in the result; the root operation types too. For the variant of the code that rebuilds
+  every registered type (`extKeepAll`) and builds added input fields against the extended registry (`extInputFieldExtended`,
+  C11-S1 fixed) — the variant of /repo (`current_extend_closed`).
+  `extend_closed_kept_partial` (+ `extend_closed_source_directives`, `extend_closed_roots`) is the part taken over from the source;
+  it needs neither `ExtOK` nor `extInputFieldExtended` and is SUBSUMED by `extend_closed` where that applies.
 -/
-import PyGqlModel.Lemmas.HeapExtClosed
+import PyGqlModel.Lemmas.HeapExtAll2
 import PyGqlModel.Props.C14_extend
 
 set_option linter.unusedSimpArgs false
@@ -25,22 +20,11 @@ set_option linter.unusedVariables false
 namespace PyGql.Props.C14
 open PyGql.Heap PyGql.Heap.Own
 
-def TN.base : TN → String
-  | .named n => n
-  | .list t => TN.base t
-  | .nonNull t => TN.base t
-
-def extArgNames (gs : List ExtArg) : List String := gs.map fun g => TN.base g.ty
-def extFieldNames (fs : List ExtField) : List String := fs.flatMap fun f => TN.base f.ty :: extArgNames f.args
-
-/-- every type name the extension document mentions -/
-def extNames (ext : Ext) : List String :=
-  ext.newTypes.flatMap (fun e => extFieldNames e.2) ++ ext.fields.flatMap (fun e => extFieldNames e.2) ++
-  ext.inputFields.flatMap (fun e => extArgNames e.2) ++ ext.members.flatMap (·.2) ++ ext.newDirs.flatMap (fun e => extArgNames e.2.1)
-
-/-- the document only uses defined names; the types it defines are new and distinct -/
+/-- the document only uses defined names (of the source or of the document itself: `ExtUses`, Lemmas/HeapExtAll2.lean — every
+    type expression of an added field / argument / input field, of a field / argument of a defined type, of an argument of a
+    defined directive, every added union member); the types it defines are new and distinct -/
 def ExtOK (s : Schema) (ext : Ext) : Prop :=
-  (∀ n, n ∈ extNames ext → n ∈ names s ∨ n ∈ ext.newTypes.map (·.1)) ∧ (ext.newTypes.map (·.1)).Nodup ∧
+  ExtUses (fun x => x ∈ names s ∨ x ∈ ext.newTypes.map (·.1)) ext ∧ (ext.newTypes.map (·.1)).Nodup ∧
   ∀ e, e ∈ ext.newTypes → e.1 ∉ names s
 
 /-- FULL statement: extension results are closed -/
@@ -175,6 +159,61 @@ theorem extend_closed_roots (cfg : Cfg) (hk : cfg.extKeepAll = true) (ext : Ext)
   rw [q, m, su]
   exact ⟨key _ _, key _ _, key _ _⟩
 
+
+private theorem extUses_mono {R R' : String → Prop} (hr : ∀ x, R x → R' x) {ext : Ext} (u : ExtUses R ext) : ExtUses R' ext :=
+  ⟨fun nm f hf => ⟨hr _ (u.fields nm f hf).1, fun g hg => hr _ ((u.fields nm f hf).2 g hg)⟩,
+   fun nm g hg => hr _ (u.inputs nm g hg), fun nm m hm => hr _ (u.members nm m hm),
+   fun e f he hf => ⟨hr _ (u.newTypes e f he hf).1, fun g hg => hr _ ((u.newTypes e f he hf).2 g hg)⟩,
+   fun e g he hg => hr _ (u.newDirs e g he hg)⟩
+
+/-- the names the document defines are registered in the result -/
+theorem extend_registers_new_names (cfg : Cfg) (hk : cfg.extKeepAll = true) (ext : Ext) (s : Schema) (h : Heap) (n : String)
+    (hn : n ∈ ext.newTypes.map (·.1)) : (lookup (extend cfg ext s h).2.types n).isSome = true := by
+  simp only [extend, hk, if_true]
+  apply lookup_append_isSome_right
+  obtain ⟨x, hx⟩ := allocPlaceholders_some ((s.types.filter fun e => !isProtected e.1).map (·.1) ++ ext.newTypes.map (·.1)) h n
+    (List.mem_append.mpr (Or.inr hn))
+  rw [hx]; rfl
+
+/-- FULL `extend_closed` -/
+theorem extend_closed (cfg : Cfg) (hk : cfg.extKeepAll = true) (hin : cfg.extInputFieldExtended = true) : ExtendClosed cfg := by
+  intro ext s h hc hw hok
+  have w := wfs_of_closedB hc hw
+  obtain ⟨hu, hnd, hnew⟩ := hok
+  refine extend_closed_all cfg hk hin ext s h w hnd hnew (extUses_mono ?_ hu) (extend_frames_source cfg ext s h).2
+  intro x hx
+  rcases hx with hx | hx
+  · exact extend_registers_source_names cfg hk ext s h w.nodup x hx
+  · exact extend_registers_new_names cfg hk ext s h x hx
+
+/-- the variant in the working tree -/
+theorem current_extend_closed (hk : PyGql.Generated.HeapCfg.currentCfg.extKeepAll = true)
+    (hin : PyGql.Generated.HeapCfg.currentCfg.extInputFieldExtended = true) : ExtendClosed PyGql.Generated.HeapCfg.currentCfg :=
+  extend_closed _ hk hin
+
+/-- `extend type Query { dogs(first: String): Dog }  extend interface Pet { age: String }  type Zed { z: Pet }` -/
+def extMore : Ext :=
+  { newTypes := [("Zed", [{ name := "z", ty := .named "Pet", args := [] }])],
+    fields := [("Query", [{ name := "dogs", ty := .list (.named "Dog"), args := [{ name := "first", ty := .named "String" }] }]),
+               ("Pet", [{ name := "age", ty := .named "String", args := [] }])],
+    inputFields := [], members := [], values := [], newDirs := [("lim", [{ name := "n", ty := .named "Zed" }], ["FIELD"])] }
+
+/-- non-vacuity of `ExtOK`, and the instance -/
+example : closedB (extend Cfg.fixed extMore s0 h0).1 (extend Cfg.fixed extMore s0 h0).2 = true := by decide
+
+/-- non-vacuity of the hypotheses of `extend_closed`: the witness schema and `type Zed { z: String }` -/
+example : closedB h0 s0 = true ∧ wfB h0 s0 = true ∧ ExtOK s0 zed := by
+  refine ⟨by decide, by decide, ⟨?_, ?_, ?_, ?_, ?_⟩, by decide, by decide⟩
+  · intro nm f hf; simp [zed, assocD] at hf
+  · intro nm g hg; simp [zed, assocD] at hg
+  · intro nm m hm; simp [zed, assocD] at hm
+  · intro e f he hf
+    simp only [zed, List.mem_singleton] at he
+    subst he
+    simp only [List.mem_singleton] at hf
+    subst hf
+    exact ⟨Or.inl (by decide), fun g hg => by cases hg⟩
+  · intro e g he hg; simp [zed] at he
 
 /-- non-vacuity on the witness (`Dog implements Pet` keeps its interface reference closed through `type Zed {z: String}`) -/
 example : closedB h0 s0 = true ∧ wfB h0 s0 = true ∧ (∀ e, e ∈ zed.newTypes → e.1 ∉ names s0) ∧ (("Dog", 3) ∈ s0.types) ∧
